@@ -102,6 +102,7 @@ impl COp {
             COp::PurgeStream(t) => format!("purgeS({})", t.short()),
             COp::CreateTopic(st, i, nm, p) => format!("mkT({}:{},{nm},p{p})", st.short(), o(i)),
             COp::DeleteTopic(st, t) => format!("rmT({}:{})", st.short(), t.short()),
+            COp::UpdateTopic(st, t, nm, e) if *e == u64::MAX => format!("upT({}:{}->{nm},max-size-too-small)", st.short(), t.short()),
             COp::UpdateTopic(st, t, nm, e) => format!("upT({}:{}->{nm},exp{e})", st.short(), t.short()),
             COp::PurgeTopic(st, t) => format!("purgeT({}:{})", st.short(), t.short()),
             COp::CreatePartitions(st, t, k) => format!("mkP({}:{},+{k})", st.short(), t.short()),
@@ -418,6 +419,12 @@ impl CatWorld {
                 COp::UpdateTopic(st, t, name, exp) => {
                     let e = if *exp == 0 { IggyExpiry::NeverExpire } else { IggyExpiry::ExpireDuration(IggyDuration::from(*exp)) };
                     // the variant with a finite expiry also changes compression, replication factor and size limit
+                    // exp == u64::MAX marks the invalid variant: a size limit below the segment size (the
+                    // documented server-side rule) together with a new name - it must be refused as a whole
+                    if *exp == u64::MAX {
+                        c.update_topic(&st.ident(), &t.ident(), name, CompressionAlgorithm::None, None, IggyExpiry::NeverExpire, MaxTopicSize::Custom(IggyByteSize::from(1000u64))).await?;
+                        return Ok((None, None));
+                    }
                     let (comp, repl, max) = if *exp == 0 {
                         (CompressionAlgorithm::None, None, MaxTopicSize::Unlimited)
                     } else {
